@@ -10,7 +10,7 @@ from ..core import short_exc
 PROP = "C09"
 LEVEL = "fault_enumeration"
 EVAL_COUNTER = "injection"  # evaluations = injected faults
-N = {"quick": 1500, "thorough": 40000}
+N = {"quick": 3000, "thorough": 60000}
 RULE = ("seeded history (dispatcher with the full observer zoo: 7 feature observers, composite, unscheduled-ops, "
         "history, both rewards, residual updater over a seeded graph builder, a recording observer; or a single/multi "
         "environment) and, inside it, EVERY prefix length 0..n x EVERY invalid-request kind (6 dispatcher kinds / 5 "
